@@ -8,8 +8,9 @@ Reads /tmp/seed_out/<Cxx>/{v.diff, v_demo.py, meta.json} and
 import json, os, shutil, sys
 
 prop, v, caught = sys.argv[1], sys.argv[2], sys.argv[3]
-src = '/tmp/seed_out/%s' % prop
-sid = '%s%s' % (prop, v)
+rnd = sys.argv[4] if len(sys.argv) > 4 else '1'
+src = ('/tmp/seed_out/%s' if rnd == '1' else '/tmp/seed_out2/%s') % prop
+sid = '%s%s' % (prop, v) if rnd == '1' else '%s-r2%s' % (prop, v)
 dst = '/verif/seeded/%s' % sid
 os.makedirs(dst, exist_ok=True)
 shutil.copy(os.path.join(src, '%s.diff' % v), os.path.join(dst, 'patch.diff'))
@@ -19,14 +20,17 @@ try:
     meta = json.load(open(os.path.join(src, 'meta.json'))).get(v, {})
 except Exception as e:
     meta = {'note': 'meta.json of the seeding agent unreadable: %r' % e}
-runs = [l.strip() for l in open('/verif/.seedruns/summary')
-        if l.startswith(sid + ' ')]
+runs = []
+for f in ('/verif/.seedruns/summary.round1-first', '/verif/.seedruns/summary'):
+    if os.path.exists(f):
+        runs += [l.strip() for l in open(f) if l.startswith(sid + ' ')]
 out = {
     'id': sid,
     'breaks_property': prop,
     'summary': meta.get('summary'),
     'files': meta.get('files'),
     'needs_to_manifest': meta.get('needs'),
+    'round': int(rnd),
     'origin': 'written by an independent sub-agent that saw only the '
               'property text and a private worktree of /repo (nothing from '
               '/verif)',
